@@ -8,7 +8,7 @@ driver for the framer interpreter (engine `flo`).  One request = one whole progr
       S <n> <v>*n                         initial share values v0..v(n-1)
       R <n> (<framer> <a|i>)*n            the taskables in `house.taskables` order, active / inactive
       FR <n> framer*n
-  framer := F <first (local)> <nframes> frame*
+  framer := F <first (local)> <original 0|1> <nframes> frame*          (original 0: a clone of a moot framer)
   frame  := f <over|-> <nunders> <under>* <nitems> item*          (over/unders: local frame numbers)
   item   := A <ctx> act                                            ctx ∈ e n p r x t  (enter renter precur recur exit rexit)
           | G <far (global)> <nneeds> need* <ntracts> act*         go / timeout / repeat
@@ -202,8 +202,9 @@ def frame : Parser DeclFrame := do
 def framer : Parser DeclFramer := do
   expect "F"
   let first ← nat
+  let orig ← nat
   let frames ← counted frame
-  pure { first := first, frames := frames }
+  pure { first := first, frames := frames, original := orig != 0 }
 
 def readyEntry : Parser (Frid × Bool) := do
   let i ← nat
@@ -327,7 +328,11 @@ def execute (r : Request) (acts : Array CAct) (needs : Array NeedC) : String :=
     let sem := concreteSem acts.toList needs.toList (fun f => (P.frame f).auxes)
     let lo := opsAt P sem r.depth
     let w : World := { val := fun i => (r.shares[i]?).getD 0 }
-    let s0 := r.ready.foldl (fun s e => addReady e.1 e.2 s) (initSt w)
+    -- a clone's `.main` is fixed when it is made (Frame.resolveAuxLinks): the frame of its clause
+    let sC := (List.range frames.length).foldl (fun (s : St World) g =>
+      ((P.frame g).auxes ++ suspAuxes (P.frame g).preacts).foldl (fun s x =>
+        if (P.framer x).original then s else s.modFr x (fun st => { st with main := some g })) s) (initSt w)
+    let s0 := r.ready.foldl (fun s e => addReady e.1 e.2 s) sC
     let sk : Sked := { ready := r.ready.map (·.1) }
     if r.ticks = 0 then "ERR run ticks" else
     "|".intercalate (runLoop P sem lo acts framers.length r.shares.length r.period (sharedAux frames)
